@@ -154,7 +154,7 @@ def setup(sk, code, vals, ix):
     """common part: engine + interpreter with the same symbolic facts, query arguments"""
     from yldprolog.engine import YP
     yp = ch.new_engine()
-    yp.load_script_from_string(code, overwrite=False)
+    ch.load(yp, code)
     interp = Interp(sk['clauses'], max_steps=sk.get('max_steps', 1500))
     for (pred, arity), n in sk['facts'].items():
         cnt = vals[ix['n_%s' % pred]]
